@@ -3,6 +3,7 @@ use crate::ev::Tier;
 pub mod common;
 pub mod c01;
 pub mod c02;
+pub mod c03;
 pub mod c04;
 pub mod c05;
 pub mod c06;
@@ -28,6 +29,7 @@ pub fn dispatch(pos: &[String], tier: Tier, seed: u64, replay: Option<String>) -
         "probe" => common::debug_probe(pos),
         "C01" => c01::run(tier, seed, replay),
         "C02" => c02::run(tier, seed, replay),
+        "C03" => c03::run(tier, seed, replay),
         "C04" => c04::run(tier, seed, replay),
         "C05" => c05::run(tier, seed, replay),
         "C06" => c06::run(tier, seed, replay),
